@@ -933,6 +933,7 @@ def _f20(sub, recipe):
 
 
 KNOWN_FEATURES = {
+    "F25_merge_moves_measurement_past_control": _f25,
     "F20_measurement_qid_unorderable": _f20,
     "F23_qubit_mapping_subcircuit_simple_manager": _f23,
     "F22_phxz_symbolized_symbols_in_subcircuit": _f22,
